@@ -362,8 +362,11 @@ class BootEngine(object):
                               ("p2p_root", t.draw(65536)),
                               ("num_buf", t.draw(256)),
                               ("root_chip", t.draw(2))][t.draw(7)]
-                # (numbers in a struct file are decimal or 0x-hexadecimal)
-                tok = (hex(val) if t.draw(3) == 0 else str(val)).encode()
+                # (numbers in a struct file are decimal or 0x-hexadecimal,
+                # in either letter case, decimal possibly zero-padded to a
+                # column width)
+                tok = [str(val), hex(val), "0X%X" % val, "%04d" % val,
+                       "0%d" % val][t.weighted([4, 2, 1, 1, 1])].encode()
                 text = re.sub((r"(?m)^(%s\s+\S+\s+\S+\s+\S+\s+)\S+"
                                % fname).encode(),
                               lambda mo: mo.group(1) + tok, text)
